@@ -295,6 +295,9 @@ func (e *Ext) NoteDisplayD(d D, goVal any) {
 }
 
 func (e *Ext) NoteDisplayV(v V) {
+	if v.HasPointer() {
+		return // %v would print an address; no schema of the case language displays such a value
+	}
 	e.add(sx.T("disp", v.Sx(), sx.S(fmt.Sprintf("%v", v.Go()))))
 }
 
